@@ -316,9 +316,10 @@ def add_op(case, path, val):
     elif path == 'ctor_colmeta':
         case['ctor_colmeta'] = case['ctor_colmeta'] + [['cc%d' % len(case['ctor_colmeta']), val]]
     elif path in ('meta_set', 'meta_append', 'meta_extend'):
-        case['ops'].append([path, 'm%d' % len(case['ops']), val])
+        # one key per path, so that a later op of the same path overwrites an existing tag
+        case['ops'].append([path, 'm' + path[5:6], val])
     elif path in ('colmeta_set', 'colmeta_add'):
-        case['ops'].append([path, 'a', 'k%d' % len(case['ops']), val])
+        case['ops'].append([path, 'a', 'k' + path[8:9], val])
     elif path in ('append', 'insert', 'extend', 'iadd', 'setitem'):
         case['ops'].append([path, [['a', val], ['b', ['num', 7.0]]]])
     elif path == 'bypass_row':
